@@ -131,18 +131,47 @@ class _Scan(ast.NodeVisitor):
             return
         self.generic_visit(node)
 
+    def is_set(self, e):
+        """syntactically set-typed: set displays/comprehensions, set()/frozenset() calls, set algebra on such
+        values, set methods returning sets, names bound to such values, dict-view algebra (a.keys() & b.keys())"""
+        if isinstance(e, (ast.Set, ast.SetComp)):
+            return True
+        if isinstance(e, ast.Name):
+            return e.id in self.setnames
+        if isinstance(e, ast.Call):
+            f = e.func
+            if isinstance(f, ast.Name) and f.id in ("set", "frozenset"):
+                return True
+            if isinstance(f, ast.Attribute) and f.attr in ("union", "intersection", "difference", "symmetric_difference", "copy") \
+                    and self.is_set(f.value):
+                return True
+            return False
+        if isinstance(e, ast.BinOp) and isinstance(e.op, (ast.BitAnd, ast.BitOr, ast.BitXor, ast.Sub)):
+            def viewish(x):
+                return isinstance(x, ast.Call) and isinstance(x.func, ast.Attribute) and x.func.attr in ("keys", "items")
+            return self.is_set(e.left) or self.is_set(e.right) or (viewish(e.left) and viewish(e.right))
+        return False
+
     def visit_Assign(self, node):
-        if isinstance(node.value, (ast.Set, ast.SetComp)) or (
-                isinstance(node.value, ast.Call) and isinstance(node.value.func, ast.Name) and node.value.func.id in ("set", "frozenset")):
+        if self.is_set(node.value):
             for t in node.targets:
                 if isinstance(t, ast.Name):
                     self.setnames.add(t.id)
+        self.generic_visit(node)
+
+    def visit_AugAssign(self, node):
+        if self.is_set(node.value) and isinstance(node.target, ast.Name):
+            self.setnames.add(node.target.id)
         self.generic_visit(node)
 
     def visit_Call(self, node):
         f = node.func
         if isinstance(f, ast.Name) and f.id in AMBIENT_BUILTINS:
             self.hits.append((self.fname, self.func, f.id, node.lineno))
+        if isinstance(f, ast.Name) and f.id in ("list", "tuple", "enumerate", "iter", "next") and node.args and self.is_set(node.args[0]):
+            self.hits.append((self.fname, self.func, "order-of-set:" + f.id, node.lineno))
+        if isinstance(f, ast.Attribute) and f.attr in ("join", "extend") and node.args and self.is_set(node.args[0]):
+            self.hits.append((self.fname, self.func, "order-of-set:" + f.attr, node.lineno))
         if isinstance(f, ast.Attribute) and isinstance(f.value, ast.Name):
             if (f.value.id, None) in AMBIENT_CALLS or (f.value.id, f.attr) in AMBIENT_CALLS:
                 self.hits.append((self.fname, self.func, "%s.%s" % (f.value.id, f.attr), node.lineno))
@@ -154,10 +183,9 @@ class _Scan(ast.NodeVisitor):
         self.generic_visit(node)
 
     def _iter(self, it, lineno):
-        if isinstance(it, ast.Name) and it.id in self.setnames:
-            self.hits.append((self.fname, self.func, "iterate-set:" + it.id, lineno))
-        if isinstance(it, (ast.Set, ast.SetComp)):
-            self.hits.append((self.fname, self.func, "iterate-set-literal", lineno))
+        if self.is_set(it):
+            what = "iterate-set:" + (it.id if isinstance(it, ast.Name) else "<expr>")
+            self.hits.append((self.fname, self.func, what, lineno))
 
     def visit_For(self, node):
         self._iter(node.iter, node.lineno)
